@@ -4,7 +4,10 @@
 
 mod generated;
 
-use std::str::FromStr;
+use std::{
+    collections::{BTreeMap, BTreeSet},
+    str::FromStr,
+};
 
 use anyhow::{bail, Context, Result};
 pub use generated::*;
@@ -17,6 +20,7 @@ use super::common::{safe_ident, CodegenGrammar, CodegenRule, CodegenSettings};
 impl CodegenGrammar for Grammar {
     fn generate_code(&self, settings: &CodegenSettings) -> Result<TokenStream> {
         self.check_identifiers(settings)?;
+        self.check_include_cycles()?;
         let mut all_types = TokenStream::new();
         let mut all_parsers = TokenStream::new();
         let mut all_impls = TokenStream::new();
@@ -109,6 +113,26 @@ impl CodegenGrammar for Grammar {
     }
 }
 
+fn includes_of_choice<'a>(choice: &'a Choice, result: &mut Vec<&'a str>) {
+    for sequence in &choice.choices {
+        for part in &sequence.parts {
+            includes_of_expression(part, result);
+        }
+    }
+}
+
+fn includes_of_expression<'a>(expression: &'a DelimitedExpression, result: &mut Vec<&'a str>) {
+    match expression {
+        DelimitedExpression::Group(e) => includes_of_choice(&e.body, result),
+        DelimitedExpression::Optional(e) => includes_of_choice(&e.body, result),
+        DelimitedExpression::Closure(e) => includes_of_choice(&e.body, result),
+        DelimitedExpression::NegativeLookahead(e) => includes_of_expression(&e.expr, result),
+        DelimitedExpression::PositiveLookahead(e) => includes_of_expression(&e.expr, result),
+        DelimitedExpression::IncludeRule(e) => result.push(&e.rule),
+        _ => (),
+    }
+}
+
 /// Every name that ends up in an identifier of the generated code has to be one
 fn check_identifier(name: &str, what: &str) -> Result<()> {
     let mut tokens = match TokenStream::from_str(name) {
@@ -188,6 +212,47 @@ impl Grammar {
             for part in derive.split("::") {
                 check_identifier(part, "Derive path segment")?;
             }
+        }
+        Ok(())
+    }
+
+    /// The code generator follows `>Rule` includes without bound, so they must not form a cycle.
+    fn check_include_cycles(&self) -> Result<()> {
+        let mut includes = BTreeMap::<&str, Vec<&str>>::new();
+        for rule_entry in &self.rules {
+            if let Grammar_rules::Rule(rule) = rule_entry {
+                // the first rule with a name is the one an include finds
+                includes.entry(&rule.name).or_insert_with(|| {
+                    let mut result = Vec::new();
+                    includes_of_choice(&rule.definition, &mut result);
+                    result
+                });
+            }
+        }
+        fn visit<'a>(
+            name: &'a str,
+            includes: &BTreeMap<&'a str, Vec<&'a str>>,
+            path: &mut Vec<&'a str>,
+            done: &mut BTreeSet<&'a str>,
+        ) -> Result<()> {
+            if done.contains(name) {
+                return Ok(());
+            }
+            if path.contains(&name) {
+                path.push(name);
+                bail!("Rules include each other in a cycle: {}", path.join(" > "));
+            }
+            path.push(name);
+            for included in includes.get(name).into_iter().flatten() {
+                visit(included, includes, path, done)?;
+            }
+            path.pop();
+            done.insert(name);
+            Ok(())
+        }
+        let mut done = BTreeSet::new();
+        for name in includes.keys() {
+            visit(name, &includes, &mut Vec::new(), &mut done)?;
         }
         Ok(())
     }
